@@ -1,6 +1,7 @@
 """C02 -- class, pydantic, function and argparse emit -> parse round trip."""
 import ast
 import contextlib
+import copy
 import io
 
 from .. import coqbuild, irtools as T
@@ -9,7 +10,7 @@ from ..model import call_many
 from ..pool import guarded, run_cases
 
 THEOREMS = ["C02_defaults_alignment", "C02_function_roundtrip", "C02_default_stays_on_its_parameter", "C02_class_roundtrip",
-            "C02_alignment_example"]
+            "C02_alignment_example", "C02_class_text_roundtrip", "C02_class_docstring_canonical", "C02_class_text_example"]
 FORMATS = [("class", {}), ("pydantic", {}), ("function", {"type_annotations": True, "kwonly": True}),
            ("function", {"type_annotations": True, "kwonly": False}), ("function", {"type_annotations": False, "kwonly": True}),
            ("function", {"type_annotations": False, "kwonly": False}), ("argparse", {})]
@@ -47,6 +48,11 @@ def case_items(ir):
                 if not its:
                     clean += 1
                 for cls, det in its:
+                    # a parameter whose description carries one of the parser's ad hoc type words ("number of", "whether", "path",
+                    # "Optional, ..."): the parser re-types it from the prose after the merge -- one class per format and aspect
+                    if cls.startswith("param/") and (ir["params"].get(det.get("param")) or {}).get("doc") in T.TRIGGER_DOCS:
+                        aspect = "default" if cls.startswith("param/default") else "doc" if cls.startswith("param/doc") else "typ"
+                        cls = "param/prose-with-type-words/%s" % aspect
                     items.append(("C02/%s/%s" % (tag, cls), dict(det, config=cf)))
     return items, hops, clean
 
@@ -76,8 +82,92 @@ def sig_impl(c):
     return src, got, gotv
 
 
+# no word of parse_utils.adhoc_type_to_type / adhoc_3_tuple_* ("number", "path", "whether", " of ", " or ", ...): on those the parser
+# replaces the annotation by a type guessed from the prose -- that is C02's generator of findings (irtools TRIGGER_DOCS), not this tie
+CLS_WORDS = ["name", "the", "dataset", "count", "items", "to", "keep", "location", "file", "learning", "rate", "Convert", "numpy",
+             "batch", "size", "x", "K", "model", "zoo", "from", "e.g.", "(optional)", "a-b", "50%", "URL", "if", "set", "default", "value"]
+CLS_NAMES = ["dataset_name", "as_numpy", "batch_size", "lr", "data_loader_kwargs", "x", "K", "tfds_dir", "_private", "n2", "type_"]
+# type -> scalar defaults of that type (the emitter builds the value node from the type: a mismatched pair is outside the format and
+# raises; non-scalar defaults are source text in the IR, cf. irtools.gen_default)
+CLS_TYPED = {"str": ["'mnist'", "'a b'", "'a: b'", "'~/x'"], "int": ["5", "-1", "0"], "float": ["0.5", "-2.5"], "bool": ["True", "False"],
+             "Optional[str]": ["'mnist'"], "Optional[int]": ["5", "0"], "List[str]": [], "Union[int, str]": ["3", "'a'"],
+             "Literal['a', 'b']": ["'a'", "'b'"], "object": [], "Optional[bool]": ["True"]}
+
+
+def cls_case(rng):
+    # a class in the domain of C02_class_text_roundtrip (one-line colon-free texts, distinct names, every attribute typed and documented),
+    # and, one time in four, just outside it (an undocumented or untyped attribute, an empty description)
+    def text(lo, hi):
+        return " ".join(rng.choice(CLS_WORDS) for _ in range(rng.randint(lo, hi)))
+    names = rng.sample(CLS_NAMES, rng.randint(1, 5))
+    ps = []
+    for n in names:
+        typ = rng.choice(sorted(CLS_TYPED))
+        ps.append([n, [typ, text(1, 7), rng.choice(CLS_TYPED[typ]) if CLS_TYPED[typ] and rng.random() < 0.5 else None]])
+    doc = text(1, 9)
+    outside = rng.random() < 0.25
+    if outside:
+        k = rng.randrange(3)
+        if k == 0:
+            rng.choice(ps)[1][1] = None
+        elif k == 1:
+            doc = ""
+        else:
+            rng.choice(ps)[1][1] = "  " + text(1, 3)
+    return {"doc": doc, "params": ps, "outside": outside}
+
+
+def cls_impl(c):
+    import cdd.class_.emit
+    import cdd.class_.parse
+    from collections import OrderedDict
+    params = OrderedDict()
+    for n, (typ, doc, dflt) in c["params"]:
+        e = {}
+        if doc is not None:
+            e["doc"] = doc
+        if typ is not None:
+            e["typ"] = typ
+        if dflt is not None:
+            e["default"] = ast.literal_eval(dflt)
+        params[n] = e
+    ir = {"name": "K", "doc": c["doc"], "params": params, "returns": None, "type": "static"}
+    with contextlib.redirect_stderr(io.StringIO()):
+        node = cdd.class_.emit.class_(copy.deepcopy(ir), class_name="K", word_wrap=False, emit_default_doc=False)
+        src = ast.unparse(ast.fix_missing_locations(node))
+        node2 = ast.parse(src).body[0]
+        docstring = ast.get_docstring(node2, clean=False)
+        body = [[b.target.id, ast.unparse(b.annotation), None if b.value is None else ast.unparse(b.value)]
+                for b in node2.body if isinstance(b, ast.AnnAssign)]
+        back = cdd.class_.parse.class_(node2)
+    got = [back.get("doc"), [[k, [v.get("typ"), v.get("doc"), ("absent" if "default" not in v else repr(v["default"]))]] for k, v in back["params"].items()]]
+    return src, docstring, body, got
+
+
+def cls_compare(cases):
+    """Model/ClassFmt.v against cdd.class_.emit / cdd.class_.parse: the docstring the emitter writes, and what the parser returns for the
+    emitted class (its docstring + annotated assignments).  Defaults are compared as Python values (the model carries the source token)."""
+    bad, n = [], 0
+    impl = [guarded(cls_impl, c, 30) for c in cases]
+    ok = [(c, v) for c, (st, v) in zip(cases, impl) if st == "ok"]
+    for c, (st, v) in zip(cases, impl):
+        if st != "ok" and not c["outside"]:
+            bad.append({"input": c, "impl": v})
+    m_doc = call_many("class_docstring", [[c["doc"], [[n_, [t, d, None]] for n_, (t, d, _x) in c["params"]]] for c, _ in ok])
+    m_parse = call_many("parse_class", [[v[1], v[2]] for _, v in ok])
+    for (c, (src, docstring, body, got)), md, mp in zip(ok, m_doc, m_parse):
+        n += 1
+        if (docstring or "") != md:
+            bad.append({"input": c, "what": "class docstring", "impl": docstring, "model": md})
+            continue
+        want = [mp[0], [[k, [t, d, ("absent" if df is None else repr(ast.literal_eval(df)))]] for k, (t, d, df) in mp[1]]]
+        if [got[0] or "", got[1]] != want:
+            bad.append({"input": c, "what": "parse of the emitted class", "source": src, "impl": got, "model": want})
+    return n, bad
+
+
 def worker(batch):
-    out = {"n": 0, "hops": 0, "clean": 0, "items": [], "sig_bad": [], "sigs": 0}
+    out = {"n": 0, "hops": 0, "clean": 0, "items": [], "sig_bad": [], "sigs": 0, "classes": 0, "cls_bad": []}
     for kind, payload in batch:
         if kind == "ir":
             st, v = guarded(case_items, payload, 120)
@@ -90,6 +180,9 @@ def worker(batch):
             out["clean"] += clean
             for cls, det in items:
                 out["items"].append((cls, det, payload))
+    clss = [p for k, p in batch if k == "cls"]
+    if clss:
+        out["classes"], out["cls_bad"] = cls_compare(clss)
     sigs = [p for k, p in batch if k == "sig"]
     if sigs:
         impl = [guarded(sig_impl, c, 20) for c in sigs]
@@ -129,10 +222,11 @@ def worker(batch):
 
 def collect(ctx, n_ir, n_sig):
     rng = ctx.rng
-    work = [("ir", T.gen_ir(rng, "sig")) for _ in range(n_ir)] + [("sig", sig_case(rng)) for _ in range(n_sig)]
+    work = [("ir", T.gen_ir(rng, "sig", docs="plain" if i % 5 else "trigger")) for i in range(n_ir)] + [("cls", cls_case(rng)) for _ in range(n_sig)] + \
+        [("sig", sig_case(rng)) for _ in range(n_sig)]
     batches = [work[i:i + 6] for i in range(0, len(work), 6)]
-    agg = {"n": 0, "hops": 0, "clean": 0, "sigs": 0}
-    items, sig_bad = [], []
+    agg = {"n": 0, "hops": 0, "clean": 0, "sigs": 0, "classes": 0}
+    items, sig_bad, cls_bad = [], [], []
     for r in run_cases(worker, batches, chunk=1):
         if "harness_error" in r:
             items.append(("C02/harness/error", {"detail": r}, None))
@@ -141,12 +235,13 @@ def collect(ctx, n_ir, n_sig):
             agg[k] += r[k]
         items += r["items"]
         sig_bad += r["sig_bad"]
-    return agg, items, sig_bad, work
+        cls_bad += r["cls_bad"]
+    return agg, items, sig_bad, work, cls_bad
 
 
 def run(ctx):
     status = coqbuild.prove("C02", THEOREMS)
-    agg, items, sig_bad, work = collect(ctx, 40 if ctx.quick else 1800, 300 if ctx.quick else 15000)
+    agg, items, sig_bad, work, cls_bad = collect(ctx, 40 if ctx.quick else 1800, 300 if ctx.quick else 15000)
     for cls, det, ir in items:
         ctx.item(cls, {"stage": "emit -> source -> parse on the implementation", "clause": cls.split("/", 3)[-1],
                        "input": T.jsonable(ir) if ir else None, "detail": det})
@@ -154,6 +249,9 @@ def run(ctx):
         if sig_bad:
             ctx.violation({"stage": "correspondence: Model/FuncSig.v parse_pairs vs cdd.function.parse.function", "detail": sig_bad[:3]},
                           no_input=True)
+        elif cls_bad:
+            ctx.violation({"stage": "correspondence: Model/ClassFmt.v class_docstring / parse_class vs cdd.class_.emit / cdd.class_.parse",
+                           "detail": cls_bad[:3]}, no_input=True)
         elif not status["ok"]:
             ctx.violation({"stage": "proof", "theorem": status.get("failing_theorem"),
                            "status": {k: status[k] for k in ("theorems", "forbidden", "build_log") if k in status}}, no_input=True)
@@ -170,6 +268,7 @@ def run(ctx):
                 "signatures with 0..6 positional and 0..3 keyword-only parameters, self/cls, for the alignment model",
         "interfaces": agg["n"], "hops": agg["hops"], "hops_without_any_difference": agg["clean"],
         "signatures_compared_with_model": agg["sigs"], "signature_disagreements": len(sig_bad),
+        "classes_compared_with_model": agg["classes"], "class_disagreements": len(cls_bad),
         "traces_validated_against_impl": agg["sigs"],
         "samples": [T.jsonable(work[0][1]), work[-1][1]],
         "build": {k: status[k] for k in ("build_s", "forbidden")},
